@@ -110,15 +110,22 @@ class RawPayloadDecoder(AbstractSimplePayloadDecoder):
 
             return
 
+        asn1Object = noValue
+
         while True:
             for value in decodeFun(
                     substrate, asn1Spec, tagSet, length,
                     allowEoo=True, **options):
 
-                if value is eoo.endOfOctets:
-                    return
+                if isinstance(value, SubstrateUnderrunError):
+                    yield value
 
-                yield value
+            if value is eoo.endOfOctets:
+                break
+
+            asn1Object = value
+
+        yield asn1Object
 
 
 rawPayloadDecoder = RawPayloadDecoder()
